@@ -54,3 +54,106 @@ pub fn miri_slice(seed: u64, histories: usize, sessions: usize) -> i32 {
         0
     }
 }
+
+// ---------------------------------------------------------------------------------------------------------------
+// Long histories (part of C01): tens of thousands of orders and trades on one book, so that ids, the trade log and the
+// cumulative counters pass 2^16, judged against the reference engine at checkpoints and after a final drain. The
+// per-operation runner snapshots the whole book after every call (quadratic), which bounds its histories to hundreds
+// of operations; this driver trades observation density for length.
+// ---------------------------------------------------------------------------------------------------------------
+use crate::model::{RefBook, ACTIVE};
+use crate::real::RealBook;
+
+pub struct LongOut {
+    pub ops: u64,
+    pub orders: u64,
+    pub trades: u64,
+    pub checkpoints: u64,
+    pub max_resting: u64,
+}
+
+pub fn long_history<B: RealBook>(seed: u64, n_ops: usize) -> Result<LongOut, String> {
+    let mut rng = Sm::derive(seed, 0x10_46);
+    let tick = rng.range(1, 10) as u32;
+    let t0 = rng.below(1000);
+    let mut real = B::new(t0, tick, true);
+    let mut rf = RefBook::new(t0, tick, true);
+    let center = rng.range(200, 50_000);
+    let mut t = t0;
+    let mut out = LongOut { ops: 0, orders: 0, trades: 0, checkpoints: 0, max_resting: 0 };
+    let compare = |real: &B, rf: &RefBook, at: usize| -> Result<(), String> {
+        let (ro, rt) = (real.orders(), real.trades());
+        if ro.len() != rf.orders.len() || rt.len() != rf.trades.len() {
+            return Err(format!("after {} operations: {} orders / {} trades, reference has {} / {}", at, ro.len(), rt.len(), rf.orders.len(), rf.trades.len()));
+        }
+        for (a, b) in ro.iter().zip(rf.orders.iter()) {
+            if a != b {
+                return Err(format!("after {} operations: order record {:?}, reference {:?}", at, a, b));
+            }
+        }
+        for (k, (a, b)) in rt.iter().zip(rf.trades.iter()).enumerate() {
+            if a != b {
+                return Err(format!("after {} operations: trade #{} {:?}, reference {:?}", at, k, a, b));
+            }
+        }
+        let v = real.views();
+        let exp = crate::ops::recompute_views(&ro, tick, B::LEVELS);
+        if v != exp {
+            return Err(format!("after {} operations: published views differ from the order list", at));
+        }
+        if let Some((qb, qa)) = real.queue() {
+            if qb != rf.queue(true) || qa != rf.queue(false) {
+                return Err(format!("after {} operations: queue order differs from the reference", at));
+            }
+        }
+        Ok(())
+    };
+    for i in 0..n_ops {
+        // every queue insertion at its own clock value (clock discipline)
+        t += rng.range(1, 3);
+        real.set_time(t);
+        rf.set_time(t);
+        let r = rng.below(100);
+        let n = rf.orders.len();
+        if r < 70 || n == 0 {
+            let bid = rng.chance(0.5);
+            let market = rng.chance(0.08);
+            // two-tick band around a slowly drifting centre: about half of the limit orders cross
+            let k = center + (i as u64 / 5000) + rng.range(0, 3) - 1;
+            let price = if market { None } else { Some((k.max(2) * tick as u64) as u32) };
+            let vol = rng.range(1, 40) as u32;
+            let trader = rng.below(1000) as u32;
+            let a = real.create_place(bid, vol, trader, price).map_err(|e| format!("creation rejected: {}", e))?;
+            let b = rf.create(bid, vol, trader, price).map_err(|_| "reference rejected".to_string())?;
+            rf.place(b);
+            if a != b {
+                return Err(format!("operation {}: id {} returned, {} expected", i, a, b));
+            }
+        } else if r < 85 {
+            let id = if rng.chance(0.7) { n - 1 - rng.below((n as u64).min(50)) as usize } else { rng.below(n as u64) as usize };
+            real.cancel(id);
+            rf.cancel(id);
+        } else {
+            let id = if rng.chance(0.7) { n - 1 - rng.below((n as u64).min(50)) as usize } else { rng.below(n as u64) as usize };
+            let nv = Some(rng.range(1, 60) as u32);
+            real.modify(id, None, nv);
+            rf.modify(id, None, nv);
+        }
+        out.ops += 1;
+        if i % 4096 == 4095 {
+            compare(&real, &rf, i + 1)?;
+            out.checkpoints += 1;
+            out.max_resting = out.max_resting.max(rf.orders.iter().filter(|o| o.status == ACTIVE).count() as u64);
+        }
+        // keep the cumulative counter below 2^32
+        if rf.traded > (1u64 << 31) {
+            real.reset_trade_vol();
+            rf.reset_traded();
+        }
+    }
+    compare(&real, &rf, n_ops)?;
+    out.checkpoints += 1;
+    out.orders = rf.orders.len() as u64;
+    out.trades = rf.trades.len() as u64;
+    Ok(out)
+}
